@@ -21,7 +21,7 @@ VARIABLE l
 tvars == <<vars, l>>
 S(x) == {x[k] : k \in DOMAIN x}
 
-EnvOf(r) == [ctx |-> IF "ctx" \in DOMAIN r THEN r.ctx ELSE "wide", req |-> IF "req" \in DOMAIN r THEN r.req ELSE "full", tries |-> IF "tries" \in DOMAIN r THEN r.tries ELSE 1, hist |-> IF "hist" \in DOMAIN r THEN r.hist ELSE "none",
+EnvOf(r) == [next |-> <<>>, ctx |-> IF "ctx" \in DOMAIN r THEN r.ctx ELSE "wide", req |-> IF "req" \in DOMAIN r THEN r.req ELSE "full", tries |-> IF "tries" \in DOMAIN r THEN r.tries ELSE 1, hist |-> IF "hist" \in DOMAIN r THEN r.hist ELSE "none",
              loaded |-> {}, hdone |-> TRUE]
 BundleOf(r) == [cas |-> S(r.bundle.cas), lay |-> r.bundle.lay]
 LblOf(e) ==
@@ -29,6 +29,7 @@ LblOf(e) ==
                                            !.rpc = e.rpc, !.same = e.same]
     [] e.op = "return"    -> [NoLbl EXCEPT !.op = "return", !.err = e.err, !.pan = e.pan, !.hang = e.hang, !.kept = (IF "kept" \in DOMAIN e THEN e.kept ELSE TRUE), !.certs = e.certs, !.cm = e.cm]
     [] e.op = "construct" -> [NoLbl EXCEPT !.op = "construct", !.err = e.err]
+    [] e.op = "nextcall"  -> [NoLbl EXCEPT !.op = "nextcall"]
     [] e.op = "priorcall" -> [NoLbl EXCEPT !.op = "priorcall", !.err = e.err]
     [] e.op = "otherconf" -> [NoLbl EXCEPT !.op = "otherconf", !.err = e.err]
     [] e.op = "backoff"   -> [NoLbl EXCEPT !.op = "backoff", !.bo = e.bo]
@@ -42,12 +43,15 @@ Reset == /\ l <= Len(TraceLog) /\ TraceLog[l].ev = "reset"
          /\ UNCHANGED <<pc, i, result>>
 Step == /\ l <= Len(TraceLog) /\ TraceLog[l].ev = "step"
         /\ last' = LblOf(TraceLog[l].e)
-        /\ contacted' = IF TraceLog[l].e.op = "contact" THEN Append(contacted, TraceLog[l].e.ep) ELSE contacted
+        /\ contacted' = CASE TraceLog[l].e.op = "contact" -> Append(contacted, TraceLog[l].e.ep)
+                          [] TraceLog[l].e.op = "nextcall" -> <<>>          \* a further call on the same Signer: judged against its own vector
+                          [] OTHER -> contacted
+        /\ eps' = IF TraceLog[l].e.op = "nextcall" THEN TraceLog[l].e.eps ELSE eps
         /\ l' = l + 1
         /\ env' = [env EXCEPT !.loaded = CASE TraceLog[l].e.op = "otherconf" -> @ \cup Others(bundle)
                                             [] TraceLog[l].e.op = "construct" -> @ \cup bundle.cas
                                             [] OTHER -> @]
-        /\ UNCHANGED <<eps, bundle, pc, i, result>>
+        /\ UNCHANGED <<bundle, pc, i, result>>
 TraceNext == Reset \/ Step
 TraceSpec == TraceInit /\ [][TraceNext]_tvars
 
